@@ -161,7 +161,7 @@ func utxoReaderRules(c *q.Ctx) {
 	// replay UTXO reader: each declared input is consumed once, selection stops when the amount is covered
 	su := c.Fn(sb + "(*UTXOReader).SelectUtxo")
 	if su != nil {
-		c.CondCount(su, "(big.(*Int).Cmp(local<Int>,p2) < 0)", 2, "selection continues while, and fails if, the selected sum is below the requested amount: it stops as soon as the amount is covered exactly")
+		c.CondCount(su, "(big.(*Int).Cmp(big.NewInt(0){Add(self,big.NewInt(0){SetBytes(p0.inputCache[].Amount)})},p2) < 0)", 2, "selection continues while, and fails if, the selected sum is below the requested amount: it stops as soon as the amount is covered exactly")
 		c.Guard(su, q.Cond{Canon: "bytes.Equal(p0.inputCache[].FromAddr,p1)", Sense: false}, q.ToSuccess(), q.Opt{})
 		c.CondCount(su, "(#i < len(p0.inputCache[p0.inputIdx:]))", 1, "the scan visits the declared inputs from the cursor onwards")
 		c.ReturnIs(su, 0, []string{"nil", "p0.inputCache[p0.inputIdx:][:*]"}, "what is handed out is the prefix of the not yet consumed inputs that was scanned")
